@@ -75,7 +75,7 @@ UNIT = {
         # ---------------------------------------------------------------- equality
         {'kind': 'fn', 'src': B, 'path': 'fn eval_ternary_equality', 'key': 'compare::eval_ternary_equality',
          'props': P, 'auto_props': A, 'ret': 'r',
-         'attrs': '#[verifier::exec_allows_no_decreases_clause]',
+         'decreases': '*lhs',
          'body_prefix': 'broadcast use vstd::std_specs::btree::group_btree_axioms;\nbroadcast use axiom_num_trichotomy;\nproof { axiom_name_key(); }',
          'ensures': [('true_iff_equal', '(r == Some(true)) <==> veq(*lhs, *rhs)'),
                      ('flat_table', '!(lhs is Context && rhs is Context) ==> r == eq3_flat(*lhs, *rhs)'),
@@ -102,7 +102,7 @@ UNIT = {
                      ('map_in_seq', 'forall |kk: Name| ls.0@.contains_key(kk) ==> exists |j: int| 0 <= j < it.seq().len() && *(#[trigger] it.seq()[j]).0 == kk'),
                      ('done_equal', 'forall |j: int| 0 <= j < it.index@ ==> veq(*(#[trigger] it.seq()[j]).1, rs.0@[*it.seq()[j].0])'),
                  ],
-                 'body_prefix': 'broadcast use vstd::std_specs::btree::group_btree_axioms;\nproof { axiom_name_key(); assert(ls.0@.contains_key(*key1) && ls.0@[*key1] == *value1); }',
+                 'body_prefix': 'broadcast use vstd::std_specs::btree::group_btree_axioms;\nproof { axiom_name_key(); assert(ls.0@.contains_key(*key1) && ls.0@[*key1] == *value1);\n  assert(decreases_to!(*lhs => lhs->Context_0)); assert(decreases_to!(*ls => ls.0)); assert(decreases_to!(ls.0 => ls.0@[*key1])); assert(decreases_to!(*lhs => *value1)); }',
              },
              2: {
                  'iter_name': 'it',
@@ -113,7 +113,7 @@ UNIT = {
                      ('zip_elems', 'forall |j: int| 0 <= j < it.seq().len() ==> *(#[trigger] it.seq()[j]).0 == ls.0@[j] && *it.seq()[j].1 == rs.0@[j]'),
                      ('done_equal', 'forall |j: int| 0 <= j < it.index@ ==> veq(#[trigger] ls.0@[j], rs.0@[j])'),
                  ],
-                 'body_prefix': 'proof { assert(*l == ls.0@[it.index@ as int] && *r == rs.0@[it.index@ as int]); }',
+                 'body_prefix': 'proof { assert(*l == ls.0@[it.index@ as int] && *r == rs.0@[it.index@ as int]);\n  vstd::std_specs::vec::axiom_vec_index_decreases(ls.0, it.index@ as int); assert(decreases_to!(*lhs => lhs->List_0)); assert(decreases_to!(*ls => ls.0)); assert(decreases_to!(*lhs => *l)); }',
              },
          },
          'splices': [
@@ -201,7 +201,6 @@ ASSUMPTIONS = [
     'A-derive: derived PartialEq/PartialOrd of the duration newtypes compare the wrapped integer; derived Clone returns an equal value',
     'A-chrono: FeelTime/FeelDateTime equal() and between() are uninterpreted three-valued relations, equality assumed symmetric',
     'R3 drops the diagnostic message of value_null!(..); R4 lifts closure bodies (operand evaluation order and closure wiring dropped); R2 map iteration via .iter()',
-    'termination of eval_ternary_equality is not proved (exec_allows_no_decreases_clause)',
 ]
 
 
